@@ -172,7 +172,10 @@ def run(ctx, m):
 
 
 def _run(ctx, m):
-    import pC15
+    import pC15, os, sys, time, resource
+    def mark(name):
+        if os.environ.get('VERIF_DEBUG'):
+            sys.stderr.write('[c15tie %s] t=%.1fs rss=%dMB cases=%d\n' % (name, time.time() - ctx.t0, resource.getrusage(resource.RUSAGE_SELF).ru_maxrss // 1024, ctx.cases))
     rng = ctx.rng
     n_terms = 400 if ctx.thorough else 120
     terms = pC15.gen_terms(ctx, n_terms)
@@ -198,6 +201,7 @@ def _run(ctx, m):
         io = vlib.guarded(lambda: G.build(t))
         ctx.corr("ctor", G.term_repr(t), o, "1" if io[0] == "ok" else "0")
 
+    mark('1. serialize')
     # ---- 1. serialize: valid values, offsets, lookahead, ill-shaped values
     per = 24 if ctx.thorough else 8
     ser_cases = []
@@ -230,6 +234,7 @@ def _run(ctx, m):
         if io[0] == "ok" and io[1] is not None and latin1(io[1][1]):
             texts.append((t, h, w, io[1][1]))
 
+    mark('2. deserializ')
     # ---- 2. deserialize: produced texts, with suffix / prefix, truncated, mutated, every Latin-1 char
     de_cases = []
     for (t, h, w, s) in texts:
@@ -268,6 +273,7 @@ def _run(ctx, m):
                                    else (mo[1][0] == io[1][0] and strict_eq(mo[1][1], io[1][1])))
         ctx.corr(kind, (G.term_repr(t), h, w, s, idx), mo if not ok else io, io)
 
+    mark('3. serialize_')
     # ---- 3. serialize_problem / deserialize_problem / URL wrappers
     from cspuz.problem_serializer import (serialize_problem, deserialize_problem, serialize_problem_as_url,
                                           deserialize_problem_as_url, get_puzzle_info_from_url)
@@ -348,6 +354,7 @@ def _run(ctx, m):
         mo = parse_model(o, "pv")
         ctx.corr("get_puzzle_info_from_url", u, mo, io)
 
+    mark('4. room parti')
     # ---- 4. room partitions (all partitions of small boards in all orders, random, big)
     plain = [("R", False, False), ("R", True, False), ("R", False, True)]
     vt = ("V", ("O", [("H",), ("S", -1, "g")]), True, False)
@@ -405,6 +412,7 @@ def _run(ctx, m):
         io = norm(vlib.guarded(lambda: c.serialize(env(h, w), d, idx)))
         ctx.corr("rooms-malformed", (G.term_repr(t), h, w, repr(d), idx), parse_model(o, "ser"), io)
 
+    mark('5. int()')
     # ---- 5. int() and str.isdigit models on short Latin-1 strings
     alpha = "0159afgzAFGZ_+- x\t\n\xa0\x85\x1c\xb2\xb9\xe9X."
     strs = [""] + [a for a in alpha] + [a + b for a in alpha for b in alpha]
